@@ -1264,8 +1264,9 @@ class Polygon(BaseConstraint):
             inside or outside the constrained region
         """
         x, y = coords[:]
-        # define point in polygon
-        polygon = self.xy_coords
+        # define point in polygon (as floats: differences of unsigned integer
+        # vertices would wrap around)
+        polygon = np.asarray(self.xy_coords, dtype=float)
         n = len(polygon)
         inFlag = False
 
